@@ -26,7 +26,8 @@ CONSTANTS
   DSNS,          \* client DSN configurations, subset of {"off","ret","notify","both"}
   NONOOP,        \* subset of BOOLEAN: WithoutNoop
   SHAPES,        \* reply text shapes: subset of {"lead","later","none"}
-  CLASSES,       \* fault classes: subset of {"t4","p5","drop"}
+  CLASSES,       \* fault classes: subset of {"t4","p5","drop","x3"}
+  CODESETS,      \* rotations of the reply-code table, subset of 0..99
   DEV_ImplicitDot, DEV_NoRsetAfterDataReject, DEV_ContinueAfterRsetFail,
   DEV_LeakOnDialError, DEV_QuitFailureLeavesConn
 
@@ -37,7 +38,12 @@ vars == <<pc, m, r, ext, dead, rej, dl, se, top, budget, nfault, dotOpen, cfg, o
 
 NoErr == [haserr |-> FALSE, reason |-> "", code |-> 0, temp |-> FALSE, esc |-> "", rcpts |-> <<>>]
 
-CodeOf(cls, k) == IF cls = "t4" THEN 450 + k ELSE IF cls = "p5" THEN 550 + k ELSE 0
+(* Reply codes of the n-th fault: cfg.cs rotates through the code space so that     *)
+(* boundary codes (400, 499, 500, 599) and, in the sweep configurations, every     *)
+(* code 400..599 occur at every position; the codes of one scenario are distinct.  *)
+CodeOf(cls, k) == IF cls = "t4" THEN 400 + ((cfg.cs + 33 * (k - 1)) % 100)
+                  ELSE IF cls = "p5" THEN 500 + ((cfg.cs + 33 * (k - 1)) % 100)
+                  ELSE IF cls = "x3" THEN 330 + k ELSE 0
 EscOf(cls, k)  == IF cls = "t4" THEN <<"4.5.1", "4.5.2", "4.5.3", "4.5.4">>[k]
                   ELSE IF cls = "p5" THEN <<"5.5.1", "5.5.2", "5.5.3", "5.5.4">>[k] ELSE ""
 OkCode(v) == CASE v = "DATA" -> 354 [] v = "QUIT" -> 221 [] v = "GREET" -> 220 [] OTHER -> 250
@@ -48,7 +54,8 @@ EnvChoices == {[c |-> "ok", sh |-> "none"]} \cup
 
 (* what the client stores for a failed step *)
 ErrOf(reason, ch, k, rc) ==
-  [haserr |-> TRUE, reason |-> reason, code |-> CodeOf(ch.c, k), temp |-> ch.c = "t4",
+  [haserr |-> TRUE, reason |-> reason, temp |-> ch.c = "t4",
+   code |-> IF ch.c \in {"t4", "p5"} THEN CodeOf(ch.c, k) ELSE 0,   \* only 4yz / 5yz codes are reported
    esc |-> IF "ENHANCEDSTATUSCODES" \in ext /\ ch.sh = "lead" THEN EscOf(ch.c, k) ELSE "",
    rcpts |-> rc]
 LocalErr(reason) == [NoErr EXCEPT !.haserr = TRUE, !.reason = reason]
@@ -96,10 +103,10 @@ Quiet == UNCHANGED <<budget, nfault, hist, dotOpen, pred>>
 
 -----------------------------------------------------------------------------
 Cfgs ==
-  {[op |-> OP, nr |-> nr, enc8 |-> e8, rf |-> rf, caps |-> cs, dsn |-> d, nonoop |-> nn,
+  {[op |-> OP, nr |-> nr, enc8 |-> e8, rf |-> rf, caps |-> cs, dsn |-> d, nonoop |-> nn, cs |-> rot,
     policy |-> "none", authtype |-> "NOAUTH", noenc |-> FALSE, hostkind |-> "other", logauth |-> FALSE] :
      nr \in [1..N -> 1..MAXR], e8 \in [1..N -> ENC8], rf \in [1..N -> {"ok"} \cup RENDERKINDS],
-     cs \in CAPSETS, d \in DSNS, nn \in NONOOP}
+     cs \in CAPSETS, d \in DSNS, nn \in NONOOP, rot \in CODESETS}
 
 Init ==
   /\ cfg \in Cfgs
